@@ -1650,6 +1650,26 @@ struct PureFont {
     axes: Vec<(i32, i32, i32)>,
 }
 
+/// A bare sfnt with a STAT table of >= 2 design axes: the same font with every axisOrdering set to 0.
+fn stat_orderings_zeroed(bytes: &[u8]) -> Option<Vec<u8>> {
+    let stat = crate::fontgen::sfnt::find_table(bytes, b"STAT")?;
+    let at = stat.as_ptr() as usize - bytes.as_ptr() as usize;
+    let rd16 = |o: usize| stat.get(o..o + 2).map(|b| u16::from_be_bytes([b[0], b[1]]) as usize);
+    let size = rd16(4)?;
+    let count = rd16(6)?;
+    let off = stat.get(8..12).map(|b| u32::from_be_bytes([b[0], b[1], b[2], b[3]]) as usize)?;
+    if count < 2 || size < 8 || off + count * size > stat.len() {
+        return None;
+    }
+    let mut out = bytes.to_vec();
+    for i in 0..count {
+        let o = at + off + i * size + 6;
+        out[o] = 0;
+        out[o + 1] = 0;
+    }
+    Some(out)
+}
+
 fn pure_fonts() -> &'static Vec<PureFont> {
     static P: OnceLock<Vec<PureFont>> = OnceLock::new();
     P.get_or_init(|| {
@@ -1675,6 +1695,11 @@ fn pure_fonts() -> &'static Vec<PureFont> {
                 v.push((p.to_string(), b));
             }
         }
+        // variable fonts whose STAT design axes all carry axisOrdering 0 (the field is a sort
+        // key; ties are legal): any order-dependent step of instance naming must still be
+        // deterministic
+        let tied: Vec<(String, Vec<u8>)> = v.iter().filter_map(|(n, b)| stat_orderings_zeroed(b).map(|b| (format!("{}+STAT-axisOrdering-all-0", n), b))).collect();
+        v.extend(tied);
         v.push(("generated:fv-font-0".into(), FvFont::new(0).build()));
         let mut basic = BasicFont::with_glyphs(40);
         for i in 0..26u32 {
@@ -1896,6 +1921,7 @@ fn check_pure(c: &PureCase, rec: &mut Rec) -> CaseResult {
     rec.set_nontrivial(matches!(&first, Ok(b) if !b.is_empty()));
     rec.class(&format!("pure:{}", name));
     rec.class_if(first.is_err(), &format!("pure:{}:error", name));
+    rec.class_if(f.name.ends_with("+STAT-axisOrdering-all-0") && matches!(op, PureOp::Instance(_)) && first.is_ok(), "pure:instance:STAT-axis-orderings-tied");
     rec.sample(|| format!("{} {:?} -> {}", f.name, op, match &first { Ok(b) => format!("{} bytes", b.len()), Err(e) => truncate(e, 80) }));
     Ok(())
 }
